@@ -17,6 +17,9 @@ from collections import Counter
 from pathlib import Path
 
 VERIF = Path(__file__).resolve().parents[2]
+# evidence/ and replays/ go to VERIF_OUT when set (used when trying seeded changes in a scratch
+# tree, so that the committed evidence is only ever written by runs against /repo itself)
+OUT = Path(os.environ.get("VERIF_OUT") or VERIF)
 REPO = Path(os.environ.get("VERIF_REPO", "/repo")).resolve()
 SEED = int(os.environ.get("VERIF_SEED", "0") or 0)
 MAX_REPLAYS_PER_RUN = 8
@@ -113,8 +116,8 @@ class Run:
         for sig, vs in known_hit:
             lines.append(f"KNOWN-FINDING: property={self.pid} {sig} ({len(vs)} cases) "
                          f"{open_sigs[sig].get('what', '')}")
-        replay_dir = VERIF / "replays"
-        replay_dir.mkdir(exist_ok=True)
+        replay_dir = OUT / "replays"
+        replay_dir.mkdir(parents=True, exist_ok=True)
         for n, (sig, vs) in enumerate(new_sigs):
             if n >= MAX_REPLAYS_PER_RUN:
                 lines.append(f"(+{len(new_sigs) - n} further violation signatures not written out)")
@@ -158,8 +161,8 @@ class Run:
             "wall_s": round(time.time() - self.t0, 3),
             "violations": sum(len(v) for _, v in new_sigs),
         }
-        evdir = VERIF / "evidence"
-        evdir.mkdir(exist_ok=True)
+        evdir = OUT / "evidence"
+        evdir.mkdir(parents=True, exist_ok=True)
         (evdir / f"{self.pid}.json").write_text(
             json.dumps(ev, indent=1, ensure_ascii=True, default=repr) + "\n")
 
